@@ -139,7 +139,7 @@ package raft
 // "pin inserts or replaces the entry for its CID, unpin deletes it ... Every applied change is handed
 // to the local pin tracker with the same CID, type, mode and allocations as stored"
 //@ func (op *LogOp) ApplyTo
-//@   property C01
+//@   property C01 C04
 //@   requires op.Cid != nil
 //@   ensures [pin-inserts-or-replaces] old(op.Type) == LogOpPin && err == nil ==> haskey(pinset, old(op.Cid).Cid) && pinset[old(op.Cid).Cid] == *old(op.Cid)
 //@   ensures [pin-touches-nothing-else] old(op.Type) == LogOpPin ==> forall c cid.Cid :: c != old(op.Cid).Cid ==> (haskey(pinset, c) <==> haskey(old(pinset), c)) && pinset[c] == old(pinset)[c]
